@@ -299,3 +299,46 @@ Theorem index_of_spec :
 Proof. exact TableRemap.index_of_spec. Qed.
 Print Assumptions index_of_spec.
 
+
+(* every table that process can build (Proofs/TableRows.v) has colspans >= 1, the column count
+   of its widest row and no column that no row separates; the renumbering is idempotent *)
+From H2T Require Import Base Tagged Wrap Sub Css Dom Render Api CssParse Proofs.CssTotal Proofs.WrapInv Proofs.RenderWidth Proofs.Conserve Proofs.Footnotes Proofs.AnnBalance Proofs.RenderConserve Proofs.OptionRel Proofs.Compose Proofs.RenderTotal Proofs.FragStream Proofs.SimRel Proofs.Prune Proofs.TableRows.
+
+Theorem process_table_ok :
+  forall (sd : styledata) (udc : bool) (inl : list (text * text) -> res (list styledecl)) 
+         (n : node) (p : list anc) (idx : Z) (t : rnode),
+       process sd udc inl n p idx = Ok (Some t) -> table_ok t.
+Proof. exact TableRows.process_table_ok. Qed.
+Print Assumptions process_table_ok.
+
+Theorem dom_to_render_tree_table_ok :
+  forall (sd : styledata) (udc : bool) (inl : list (text * text) -> res (list styledecl))
+         (doc : list node) (t : rnode), dom_to_render_tree sd udc inl doc = Ok t -> table_ok t.
+Proof. exact TableRows.dom_to_render_tree_table_ok. Qed.
+Print Assumptions dom_to_render_tree_table_ok.
+
+Theorem table_ok_tables :
+  forall t : rnode,
+       table_ok t ->
+       forall (rows : list rrow) (n : N) (s : cstyle),
+       subnode (RN (ITable rows n) s) t ->
+       TableRemap.pos_rows rows /\
+       n = maxN (map row_num_cells rows) /\
+       (forall k : N, 1 <= k -> k <= n -> exists r : rrow, In r rows /\ In k (TableRemap.new_ends r)).
+Proof. exact TableRows.table_ok_tables. Qed.
+Print Assumptions table_ok_tables.
+
+Theorem table_ok_bodies :
+  forall t : rnode,
+       table_ok t ->
+       forall (rows : list rrow) (s : cstyle), subnode (RN (ITableBody rows) s) t -> TableRemap.pos_rows rows.
+Proof. exact TableRows.table_ok_bodies. Qed.
+Print Assumptions table_ok_bodies.
+
+Theorem render_table_new_idem :
+  forall (rows rows' : list rrow) (n : N),
+       TableRemap.pos_rows rows ->
+       render_table_new rows = Ok (ITable rows' n) -> render_table_new rows' = Ok (ITable rows' n).
+Proof. exact TableRows.render_table_new_idem. Qed.
+Print Assumptions render_table_new_idem.
+
